@@ -39,7 +39,7 @@ PROPS["C14"] = dict(
     phases=dict(quick=[enum(8), rc(8, 3000)], thorough=[enum(16), rc(16, 50000)]),
     rule=("cases: file maps (1-4 files) whose contents are strings over the scanner's significant characters, "
           "concatenated documented spellings and near-misses with/without separators, raw bytes, include layouts (one file name agrees with "
-          "the main file's up to a NUL byte; 'a' and './a' are two files; files may end in a directive and may start with a byte order mark, '#!', CR LF or NUL), 1/40 of the texts preceded by more than 65535 newlines; "
+          "the main file's up to a NUL byte; 'a' and './a' are two files; files may end in a directive or in a comment without a line break and may start with a byte order mark, '#!', CR LF or NUL), 1/40 of the texts preceded by more than 65535 newlines; "
           "plus every string up to the enumerated length over a 12-character alphabet. Oracle: reference maximal-munch "
           "lexer with include splicing (kind, text, file, end line, one final EOF); committed lex.yy.c and a flex-generated "
           "scanner must both agree with it and with each other (output digest). Non-trivial: the reference stream has >=2 "
